@@ -9,7 +9,7 @@ CFG = {
             "colours (quick) / all 2^24 direct colours (thorough); C07caps: real vaxis.New on the fake console for advertised "
             "capability subsets (3000 random + the cursor-in-column-2 scenarios in quick, all 2^16 subsets in thorough), detected "
             "flags and Can* accessors, RenderedWidth of 14 graphemes under the detected method; non-trivial = a direct colour / a caps "
-            "or width line; distinct by op line; C07caps also runs ~700 start-up reply streams through the real New (replayed through the start-up LTS, judged by specCaps) and 120 fixtures of API calls (clipboard, notify, title, app id, bell, cursor-position and colour queries) whose bytes must be the sequences.go template - and nothing for a colour query whose report was not advertised; plus the C01 frame-history stream and the C04 session stream, whose drivers also judge every real token against the gated vocabulary (allowedTok / allowedLife) under the detected capability set",
+            "or width line; distinct by op line; C07caps also runs ~700 start-up reply streams through the real New (replayed through the start-up LTS, judged by specCaps) and 120 fixtures of API calls (clipboard, notify, title, app id, bell, cursor-position and colour queries) whose bytes must be the sequences.go template - and nothing for a colour query whose report was not advertised; and 288 (quick) / 4800 image scenarios (`img` lines: all 2^3 graphics advertisements x 3 pixel-size situations x random other capabilities, picture kinds and sizes, resize targets, windows): real NewImage, Resize, five real frames (drawn, again, moved or Refresh, without, after Destroy) and Destroy, the bytes of every phase lexed by the driver (APC with the kitty control keys a= i= m= f=, sixel DCS, CSI, OSC, rest) and judged: kitty graphics APCs only if the kitty graphics query was answered, sixel DCS only if sixel was advertised, with neither no APC / DCS at all, no direct-colour SGR without RGB, no 2026 bracket unless advertised; the class NewImage hands out and the image escapes it produces are compared with the model (NewImage interpreted from the regenerated switch); plus the C01 frame-history stream and the C04 session stream, whose drivers also judge every real token against the gated vocabulary (allowedTok / allowedLife) under the detected capability set",
     "trusted_base": ["float64 distance step modelled by exact integer score x10^4 (DESIGN §3.5); compared by score of the chosen entry",
                      "uniseg.StringWidth / runewidth.RuneWidth are parameters (the three candidate measurements are computed by the harness)",
                      "renderer and lifecycle models are those of C01/C04 (tied to the code by their correspondence checks)"],
@@ -24,9 +24,19 @@ CFG = {
                   "the capability record and the Can* accessors to the source); writers_classified / gated_sequences_guarded / "
                   "request_writers_exact / new_image_by_protocol: every one of the ~130 terminal writers of the root package (regenerated "
                   "with its guard stack) is a start-up probe, a gated sequence under a guard testing its capability, an "
-                  "application-request API write (listed exactly), baseline/plumbing, or a statement of a modelled function.",
+                  "application-request API write (listed exactly), baseline/plumbing, or a statement of a modelled function. "
+                  "Round 4: width_method_interpreted / facts_rendered_width / facts_gwidth / width_method_source: the width-method selection of the model is the "
+                  "interpretation of the statement chain of RenderedWidth regenerated from vaxis.go (conditions in source order, method handed to gwidth) for every "
+                  "capability record, and the three method constants mean what the model assumes; image_objects_only_from_constructors / "
+                  "image_buffers_written_by_own_type / image_escape_literals_exact / image_writers_are_methods_of_the_constructed_types: kitty / sixel image "
+                  "objects are created only by the two constructors, which the library calls only from NewImage, and their buffers are filled only by their own "
+                  "Resize; new_image_interpreted / new_image_class_gated: NewImage (interpreted from the regenerated switch) over the model of graphicsProtocol "
+                  "hands out a kitty / sixel image only if that protocol was advertised and the pixel size is known, else the half-block fallback.",
     "level_note": "Validated by correspondence only: the start-up LTS = the real New() on ~700 (quick) / 12000 reply streams and on capability "
-                  "subsets (all 2^16 in thorough); API writers = sequences.go templates on the real calls. Modelled not verified: float64 "
+                  "subsets (all 2^16 in thorough); API writers = sequences.go templates on the real calls; image data writers: the bytes real NewImage / Resize / Draw+Render / Destroy write in 288 (quick) / 4800 scenarios "
+                  "are lexed and judged at run time by an oracle written from the protocols (kitty APC / sixel DCS only when advertised, none at all with neither; replayable: the op line "
+                  "determines the scenario); the model of graphicsProtocol (detected) is a hand transcription of four statements of New, CellSize and window sizes of the image scenarios "
+                  "are taken from the implementation (resizeImage's float arithmetic is C20's); the kitty chunk order is shown, not judged. Modelled not verified: float64 "
                   "rounding (validated on all 2^24 colours in thorough); uniseg/runewidth; real time of the two start-up time-outs (labels); "
                   "caps_exact assumes the loop ended by DA1 with nothing dropped (startup_completes / caps_exact_attained prove that every stream "
                   "ending in a DA1 reply has such a run); the RGB fallback inside render is gated by assignment and covered by render_gated, "
